@@ -362,7 +362,7 @@ func (l pyList) Operator(operator Operator, operand pyObject) pyObject {
 		return slices.Concat(l, l2)
 	case In, NotIn:
 		for _, item := range l {
-			if item == operand {
+			if equalObjects(item, operand) {
 				return newPyBool(operator == In)
 			}
 		}
